@@ -104,9 +104,57 @@ def is_known_c01(desc, rep):
     return None
 
 
+def git_move_scenario(rng):
+    """trees A -> B diffed by git diff -M -C: files renamed and copied with small changes, the source of a copy changed as well
+    (the only sources git looks at without --find-copies-harder), files swapping names"""
+    d = tempfile.mkdtemp(prefix="vprodg")
+    try:
+        def content(tag):
+            return [("%s %d %s" % (tag, i, gen.rand_text(rng, True)), "L") for i in range(rng.randint(8, 14))]
+        def tweak(ls):
+            ls = list(ls); i = rng.randrange(len(ls)); ls[i] = (ls[i][0] + " changed", "L")
+            if rng.random() < 0.3:
+                ls.insert(rng.randrange(len(ls)), ("added line", "L"))
+            return ls
+        A, B = {}, {}
+        how = rng.choice(["copy-modified-source", "copy-modified-source", "rename", "rename+copy", "swap", "rename-dir"])
+        A["f"] = content("f"); A["sub/g"] = content("g")
+        if how == "copy-modified-source":
+            B["f"] = tweak(A["f"]); B["f2"] = tweak(A["f"]); B["sub/g"] = A["sub/g"]
+        elif how == "rename":
+            B["moved/f"] = tweak(A["f"]); B["sub/g"] = tweak(A["sub/g"])
+        elif how == "rename+copy":
+            B["f1"] = tweak(A["f"]); B["f2"] = tweak(A["f"]); B["sub/g"] = A["sub/g"]
+        elif how == "swap":
+            B["f"] = tweak(A["sub/g"]); B["sub/g"] = tweak(A["f"])
+        else:
+            B["f"] = A["f"]; B["other/g"] = tweak(A["sub/g"])
+        for side, t in (("a", A), ("b", B)):
+            for nm, ls in t.items():
+                fp = os.path.join(d, side, nm); os.makedirs(os.path.dirname(fp), exist_ok=True)
+                open(fp, "wb").write(emit.file_bytes(ls))
+        p = subprocess.run(["git", "diff", "--no-index", "--no-color", "--text", "-M", "-C", "a", "b"], cwd=d, capture_output=True,
+                           env={"HOME": d, "PATH": "/usr/bin:/bin", "GIT_CONFIG_NOSYSTEM": "1"})
+        if not p.stdout.strip():
+            return None
+        tree, exp = {}, {}
+        for nm, ls in A.items():
+            scen.add_parents(tree, nm); tree[nm] = ("R", 0o644, emit.file_bytes(ls))
+        for nm, ls in B.items():
+            scen.add_parents(exp, nm); exp[nm] = ("R", 0o644, emit.file_bytes(ls))
+        tree["p.diff"] = ("R", 0o644, p.stdout); exp["p.diff"] = tree["p.diff"]
+        return dict(tree=tree, opts={"p": 2, "i": "p.diff"}, umask=0o022, expected=exp, meta=dict(k20=False, k21=False, k2=False, k22=False, how=how), producer="git -M -C " + how)
+    finally:
+        shutil.rmtree(d, ignore_errors=True)
+
+
 def producer_scenarios(rng, n):
     """trees A -> B diffed by GNU diff (-ruN, -rcN, -rN normal, -U0, -C0...) and by git diff --no-index"""
     scns = []
+    for _ in range(n // 6):
+        s_ = git_move_scenario(rng)
+        if s_:
+            scns.append(s_)
     for _ in range(n):
         d = tempfile.mkdtemp(prefix="vprod")
         try:
